@@ -1,5 +1,6 @@
 """C03 - COMPARE and ordered collections follow the Tezos total order.  Specs: MichSem.tla (Cmp, SetIns, MapPut), CmpLaws.tla, VM.tla."""
 import itertools
+from .. import terms
 
 from .. import vmfam, vmreplay
 from ..tlaparse import to_tla
@@ -118,7 +119,7 @@ def run(ctx):
     # literals of two keys: accepted iff the model's Cmp says strictly increasing (ordered and deduplicated by the same relation)
     from ..tlaparse import iter_dump
     from .C14 import literal_accepted
-    nlit = 0
+    nlit = npy = 0
     for st in iter_dump(r.dump):
         if st['fam'] != 'compare' or len(st['hist']) != 1 or st['status'] != 'running':
             continue
@@ -134,8 +135,46 @@ def run(ctx):
                 cls = 'unsorted-or-duplicate-literal-accepted' if got else 'sorted-literal-rejected'
                 ctx.mismatch('C03:literal:%s:%s' % (kind, cls), '%s literal {%s ; %s} of key type %s: model Cmp = %d, pytezos %s' % (kind, a, b_, t, cmpv, 'accepts' if got else 'rejects'),
                              {'family': 'literal', 'kind': kind, 'type': t, 'a': a, 'b': b_, 'cmp': cmpv})
-    ctx.replayed += nlit
+            # the same two keys handed over as Python objects (in both orders): the collection built from them is the sorted, duplicate-free one
+            if kind != 'big_map' and cmpv != 0:
+                for order in ((a, b_), (b_, a)):
+                    got_keys = from_python_order(t, ct, order, kind)
+                    if got_keys is None:
+                        continue
+                    want = [a, b_] if cmpv == -1 else [b_, a]
+                    want_j = [vmreplay.make_item(t, k).to_micheline_value(mode='readable') for k in want]
+                    npy += 1
+                    ctx.count(('pyobj', kind, t, order), nontrivial=True)
+                    if got_keys != want_j:
+                        ctx.mismatch('C03:from-python:%s:%s' % (kind, 'raises' if isinstance(got_keys, str) else 'order'),
+                                     '%s of key type %s built by from_python_object from %s: keys come out as %s, the Tezos order gives %s' % (kind, t, order, got_keys, want_j),
+                                     {'family': 'pyobj', 'kind': kind, 'type': t, 'a': a, 'b': b_, 'cmp': cmpv})
+    ctx.replayed += nlit + npy
+    ctx.extra['collections_built_from_python_objects'] = npy
     ctx.exhaustive = True
+
+
+def from_python_order(t, ct, keys, kind):
+    """keys of the set / map pytezos builds from Python objects, as optimized Micheline; None when the value has no Python object form"""
+    from pytezos.michelson.types.base import MichelsonType
+    from ..vmreplay import make_item
+    try:
+        objs = [make_item(t, k).to_python_object() for k in keys]
+        hash(objs[0])
+    except Exception:
+        return None
+    T = MichelsonType.match(terms.type_json(ct))
+    try:
+        coll = T.from_python_object(list(objs) if kind == 'set' else dict((o, Unit_()) for o in objs))
+        j = coll.to_micheline_value(mode='readable')
+    except Exception as e:
+        return 'raises %s: %s' % (type(e).__name__, str(e)[:120])
+    return [x if kind == 'set' else x['args'][0] for x in j]
+
+
+def Unit_():
+    from pytezos.michelson.types.core import Unit
+    return Unit
 
 
 def replay(ctx, rep):
